@@ -56,6 +56,16 @@ theorem evalConstantsF_preserves_partial (ctx : List Shard) (n : Nat) (q : Q) (h
     eval (evalConstantsF n q) ctx s d = eval q ctx s d :=
   (evalConstantsF_pres rfl (scope_incorpus ctx) (incorpus_live ctx) n q (by simpa [hasEmptyBranch] using hq)).2 s d h
 
+/-- **the fuel of the model's `evalConstants` is never exhausted**: any fuel above the depth of the tree (in particular
+    the `size q + 1` the model and the driver use) yields the same tree, so the model computes what the unbounded Go
+    recursion (through `Map`) computes; and folding never deepens a tree -/
+theorem evalConstants_fuel_stable (q : Q) (n : Nat) (hn : depth q < n) :
+    evalConstantsF n q = evalConstants q := by
+  have hs := depth_le_size q
+  by_cases h : n ≤ size q + 1
+  · exact (evalConstantsF_stable q n (size q + 1) hn h).symm
+  · exact evalConstantsF_stable q (size q + 1) n (by omega) (by omega)
+
 /-- **`query.Simplify`** (constant folding, then flattening to a fixpoint) -/
 theorem Simplify_preserves_partial (ctx : List Shard) (q : Q) (hq : hasEmptyBranch q = false)
     (s : Shard) (d : Doc) (h : InCorpus ctx s d) :
